@@ -544,6 +544,7 @@ type genEvent struct {
 	Got      [][3]int `json:"got"`
 	Distinct bool     `json:"distinct"`
 	MustFail bool     `json:"mustfail"`
+	MayFail  bool     `json:"mayfail"`
 	Err      bool     `json:"err"`
 	Panic    bool     `json:"panic"`
 	Msg      string   `json:"msg,omitempty"`
@@ -554,25 +555,36 @@ func genEvents(w *tr.Writer, prog *int, thorough bool) {
 		lognth     int
 		logQ, logP []int
 		mustfail   bool
+		mayfail    bool
 	}
 	var reqs []req
 	for _, ln := range []int{5, 6, 11, 12, 14, 16, 17} {
 		reqs = append(reqs,
-			req{ln, []int{60, 60, 60, 45, 45, 30}, []int{61, 61}, false},
-			req{ln, []int{55, 40, 40, 40, 40, 40, 40, 40}, []int{56, 56, 55}, false},
-			req{ln, []int{ln + 14, ln + 14, 33}, nil, false},
-			req{ln, []int{50}, []int{50, 50, 50, 50}, false})
+			req{ln, []int{60, 60, 60, 45, 45, 30}, []int{61, 61}, false, false},
+			req{ln, []int{55, 40, 40, 40, 40, 40, 40, 40}, []int{56, 56, 55}, false, false},
+			req{ln, []int{ln + 14, ln + 14, 33}, nil, false, false},
+			req{ln, []int{50}, []int{50, 50, 50, 50}, false, false})
 		if thorough {
 			for b := ln + 12; b <= 60; b += 3 {
-				reqs = append(reqs, req{ln, []int{b, b, b + 0, 60}, []int{b, 61}, false})
+				reqs = append(reqs, req{ln, []int{b, b, b + 0, 60}, []int{b, 61}, false, false})
 			}
 		}
 	}
-	reqs = append(reqs, req{11, []int{61}, nil, true}, req{11, []int{0}, nil, true}, req{11, []int{40}, []int{62}, true},
-		req{12, []int{14, 14, 14, 14, 14, 14, 14, 14}, nil, true}, req{11, []int{-5, 40}, nil, true})
+	// every bit size, three Q primes and one P prime of the same size (few NTT-friendly primes exist for sizes close to
+	// the root order: such a request may be declined, never answered wrongly)
+	for _, ln := range []int{5, 11, 14} {
+		for b := ln + 2; b <= 60; b++ {
+			if !thorough && (b+ln)%3 != 0 && b != 16 && b != 17 {
+				continue
+			}
+			reqs = append(reqs, req{ln, []int{b, b, b}, []int{b}, false, b < ln+8})
+		}
+	}
+	reqs = append(reqs, req{11, []int{61}, nil, true, false}, req{11, []int{0}, nil, true, false}, req{11, []int{40}, []int{62}, true, false},
+		req{12, []int{14, 14, 14, 14, 14, 14, 14, 14}, nil, true, false}, req{11, []int{-5, 40}, nil, true, false})
 	for _, rq := range reqs {
 		*prog++
-		e := genEvent{Ev: "gen", Prog: *prog, LogNth: rq.lognth, Req: append(append([]int{}, rq.logQ...), rq.logP...), MustFail: rq.mustfail}
+		e := genEvent{Ev: "gen", Prog: *prog, LogNth: rq.lognth, Req: append(append([]int{}, rq.logQ...), rq.logP...), MustFail: rq.mustfail, MayFail: rq.mayfail}
 		func() {
 			defer func() {
 				if r := recover(); r != nil {
